@@ -57,6 +57,7 @@ type run struct {
 	wrote   chan struct{} // signalled whenever the session has written something
 	serveRet atomic.Value // string: how Serve ended (set before the event is emitted)
 	lastItem *sentItem    // the item of the last presence fed (what the callback must report)
+	lastInv  *muc.Invitation // what the last mediated invitation fed says (nil: not checked)
 	lastHeld string       // last `=` token (addresses held, as Me() reports them)
 	blockedBy string // which parked call ("j0", "l1") keeps the serve loop blocked
 	blocked bool // serve loop blocked behind a parked Join (hand-off or unclosed error reply)
@@ -113,8 +114,12 @@ func newRun(r *common.Run, addrs []int, cf nsConf) (*run, error) {
 		x.jst[i], x.lst[i] = "idle", "idle"
 	}
 	x.cl = &muc.Client{
-		HandleInvite:       func(muc.Invitation) { ctl.Emit("cb", "invite", nil) },
+		HandleInvite:       func(inv muc.Invitation) { ctl.Emit("cb", "invite", inv) },
 		HandleUserPresence: func(_ stanza.Presence, it muc.Item) { ctl.Emit("cb", "upres", it) },
+	}
+	if cf.nocb {
+		// the callbacks are optional: the bookkeeping must be the same without them
+		x.cl = &muc.Client{}
 	}
 	m := mux.New(cf.ns, muc.HandleClient(x.cl))
 	ctl.Go("serve", func() {
@@ -233,6 +238,23 @@ func (x *run) callbacks() {
 			}
 		case e.Who == "cb" && e.What == "invite":
 			x.inv++
+			if got, ok := e.Extra.(muc.Invitation); ok && x.lastInv != nil {
+				w := x.lastInv
+				d := ""
+				switch {
+				case got.Reason != w.Reason:
+					d = fmt.Sprintf("reason %q, sent %q", got.Reason, w.Reason)
+				case got.Password != w.Password:
+					d = fmt.Sprintf("password %q, sent %q", got.Password, w.Password)
+				case got.Continue != w.Continue || got.Thread != w.Thread:
+					d = fmt.Sprintf("continue %v thread %q, sent %v %q", got.Continue, got.Thread, w.Continue, w.Thread)
+				case got.XMLName.Space != muc.NSUser:
+					d = fmt.Sprintf("name %v, not the mediated invitation's", got.XMLName)
+				}
+				if d != "" {
+					x.r.Fail("invite-once", "invitation-differs-from-the-one-sent:"+strings.SplitN(d, " ", 2)[0], x.lines(), "HandleInvite was given an invitation that differs from the one the room forwarded: "+d)
+				}
+			}
 		case strings.HasPrefix(e.What, "panic:"):
 			x.r.Fail("no-panic", "panic:"+e.Who, x.lines(), e.What)
 			x.problem("%s %s", e.Who, e.What)
@@ -343,7 +365,7 @@ func (x *run) joinReturned(c int, e c06.Ev) {
 		cleanup()
 	case x.jready[c] == "err":
 		// the room answered the join presence with an error and the call ended with something else
-		x.r.Fail("join-error", "room's-error-not-returned:"+x.jsent[c].class(), x.lines(), fmt.Sprintf("the room answered the join of channel %d with a stanza error (reply children %q, stanza namespace %s); Join returned %q instead of it", c, x.jsent[c].raw, x.ns, err))
+		x.r.Fail("join-error", "room's-error-not-returned:"+x.ns+":"+x.jsent[c].class(), x.lines(), fmt.Sprintf("the room answered the join of channel %d with a stanza error (reply children %q, stanza namespace %s); Join returned %q instead of it", c, x.jsent[c].raw, x.ns, err))
 		x.problem("Join %d returned %v", c, err)
 	default:
 		x.problem("Join %d returned %v", c, err)
@@ -379,7 +401,7 @@ func (x *run) leaveReturned(c int, e c06.Ev) {
 			x.r.Fail("leave-returns", "leave-missed-unavailable-presence", x.lines(), fmt.Sprintf("Leave of channel %d returned %v (ready=%q, token=%v)", c, err, x.lready[c], x.tok[c]))
 		}
 	case x.lready[c] == "err":
-		x.r.Fail("leave-returns", "room's-error-not-returned:"+x.lsent[c].class(), x.lines(), fmt.Sprintf("the room answered the leave of channel %d with a stanza error (reply children %q, stanza namespace %s); Leave returned %q instead of it", c, x.lsent[c].raw, x.ns, err))
+		x.r.Fail("leave-returns", "room's-error-not-returned:"+x.ns+":"+x.lsent[c].class(), x.lines(), fmt.Sprintf("the room answered the leave of channel %d with a stanza error (reply children %q, stanza namespace %s); Leave returned %q instead of it", c, x.lsent[c].raw, x.ns, err))
 		x.problem("Leave %d returned %v", c, err)
 	default:
 		x.problem("Leave %d returned %v", c, err)
@@ -524,7 +546,7 @@ func (x *run) act(a string) bool {
 				}
 				x.callbacks()
 				want := 0
-				if reg {
+				if reg && !x.conf.nocb {
 					want = 1 // an occupant presence of a registered address that completes no join
 				}
 				if x.upres-before != want {
@@ -702,7 +724,8 @@ func (x *run) act(a string) bool {
 	case a[0] == 'I':
 		// I or I<children>: a message whose children are, in this order,
 		// b body, s subject, l legacy direct-invitation x, u unrelated payload,
-		// m muc#user x with one invite, M muc#user x with two invites, d muc#user x with a decline only
+		// m muc#user x with one invite, M muc#user x with two invites, d muc#user x with a decline only,
+		// P muc#user x with an invite carrying reason and continue / thread, and a password
 		if x.blocked {
 			return false
 		}
@@ -712,6 +735,7 @@ func (x *run) act(a string) bool {
 		}
 		x.trace = append(x.trace, "I"+kids)
 		before := x.inv
+		x.lastInv = nil
 		var sb strings.Builder
 		sb.WriteString(`<message xmlns="` + x.ns + `" from="room0@conf.example.net" to="me@example.net/h">`)
 		want := 0
@@ -728,9 +752,15 @@ func (x *run) act(a string) bool {
 			case 'm':
 				sb.WriteString(`<x xmlns="http://jabber.org/protocol/muc#user"><invite from="friend@example.net/x"><reason>come</reason></invite></x>`)
 				want = 1
+				x.lastInv = &muc.Invitation{Reason: "come"}
+			case 'P':
+				sb.WriteString(`<x xmlns="http://jabber.org/protocol/muc#user"><invite from="friend@example.net/x"><reason>join us</reason><continue thread="t1"/></invite><password>pw</password></x>`)
+				want = 1
+				x.lastInv = &muc.Invitation{Reason: "join us", Password: "pw", Continue: true, Thread: "t1"}
 			case 'M':
 				sb.WriteString(`<x xmlns="http://jabber.org/protocol/muc#user"><invite from="friend@example.net/x"/><invite from="other@example.net/y"/></x>`)
 				want = 1
+				x.lastInv = nil
 			case 'd':
 				sb.WriteString(`<x xmlns="http://jabber.org/protocol/muc#user"><decline from="friend@example.net/x"/></x>`)
 			}
@@ -739,6 +769,10 @@ func (x *run) act(a string) bool {
 		x.feed(sb.String())
 		x.sync()
 		x.callbacks()
+		x.lastInv = nil
+		if x.conf.nocb {
+			want = 0
+		}
 		if x.inv-before != want {
 			x.r.Fail("invite-once", fmt.Sprintf("callback-called-%d-times-want-%d:first-child-%c", x.inv-before, want, kids[0]), x.lines(), fmt.Sprintf("message children %q: HandleInvite was called %d times, the message carries %d mediated invitation element(s)", kids, x.inv-before, want))
 		}
@@ -893,6 +927,16 @@ var corpus = []struct {
 	{"0", "J0,s0,A0:-p110x,A0:ap110s,L0,l0,U0:nn307+110r"},
 	{"0", "J0,s0,A0:mm110e,A0:--d,U0:nn110d"},
 	{"0,1", "J0,s0,A0,J1,s1,A1:cn,U1:cn301,A1:cn,U0:mn332s"},
+	// round D: the muc.Client on a component / server-to-server session (the stanzas and their
+	// <error/> children are in that stream's namespace); error replies that echo the request
+	{"0", "%a,J0,s0,Ej0,J0,s0,A0,A0,L0,l0,El0,U0,Im,N"},
+	{"0", "%s,J0,s0,Ej0:xb,J0,s0,A0,A0:on110,L0,l0,El0:swa,U0:cn301,Ibm"},
+	{"0,10", "%a,J0,s0,A0,J1,s1,A10,J0@10,J1@0,U10,L0,l0,El0:n,U0"},
+	{"0", "J0,s0,Ej0:xwt,J0,Ej0:pg,s0,J0,s0,A0,L0,El0:wsm,l0"},
+	// round D: a muc.Client whose callbacks are not set; invitations with reason, password, thread
+	{"0", "%cn,J0,s0,A0,A0,Im,IbP,N,L0,l0,U0,A0"},
+	{"0,1", "%an,J0,s0,A0,J1,s1,Ej1:xb,A0:on110,A1,IM,U0:cn301"},
+	{"0", "IP,IbPs,IlP,Im,IuPb,Id"},
 }
 
 func parseAddrs(s string) []int {
@@ -947,7 +991,7 @@ func randSched(rnd *common.Rand, n, length int) []string {
 			out = append(out, "Z"+string("jl"[rnd.Intn(2)])+c)
 		case 18:
 			// a mediated invitation among other children, in a random order
-			kids := []byte("m")
+			kids := []byte{"mmP"[rnd.Intn(3)]}
 			for _, k := range "bslu" {
 				if rnd.Chance(1, 2) {
 					kids = append(kids, byte(k))
@@ -995,6 +1039,17 @@ func RunWaits(r *common.Run) {
 	}
 }
 
+// tooMany: enough failing inputs have been collected (each further one costs a watchdog).
+func tooMany(r *common.Run) bool {
+	fresh := 0
+	for _, f := range r.Failures {
+		if f.Key != "not-joined-after-error-reply-to-leave" {
+			fresh++
+		}
+	}
+	return fresh >= 40 || r.Hist["problem"] >= 25
+}
+
 // Run is the C18 runner.
 func Run(r *common.Run) error {
 	if r.Replay != "" {
@@ -1030,13 +1085,16 @@ func Run(r *common.Run) error {
 	// unavailable presence that ends a pending Leave
 	pls := allPayloads()
 	for n, p := range pls {
+		if tooMany(r) {
+			break // a broken tree: every further case costs a watchdog
+		}
 		r.Mark("case payload %d", n)
 		runCase(r, []int{0}, []string{"J0", "s0", "A0:" + p, "A0:" + p, "L0", "l0", "U0:" + p}, "payload")
 	}
 	nRep := runReplies(r)
 	nC := runContention(r)
 	nR := r.Pick(1200, 20000)
-	for n := 0; n < nR && len(r.Failures) < 80 && r.Hist["problem"] < 25; n++ {
+	for n := 0; n < nR && !tooMany(r); n++ {
 		r.Mark("case random %d", n)
 		k := 1 + r.Rnd.Intn(3)
 		addrs := make([]int, k)
